@@ -21,8 +21,8 @@ RULE = ("random step sets (subsets of [-9,9] and [-40,40], 0..7 steps, straddlin
         "non-trivial = accepted horizon with >= 2 steps and a cutoff given, or a rejection of a "
         "malformed input; distinct = distinct canonical JSON case")
 TRUSTED = [
-    "translator/fh.py (Python ast -> Gallina for the ForecastingHorizon methods and check_fh, "
-    "fail-closed); validated on every run because the regenerated functions are proved equal to the "
+    "translator/fh.py (Python ast -> Gallina for _check_values, ForecastingHorizon.__init__, 13 "
+    "methods, _check_cutoff/_check_start and check_fh, fail-closed); validated on every run because the regenerated functions are proved equal to the "
     "model the implementation is compared with (Bridge.v)",
     "modelled pandas/numpy primitives: pd.Index(list-or-array, dtype=int64) element coercion "
     "(coerce_num), Index.nunique (dedup), Index.sort_values (isort), RangeIndex contents (pyrange), "
@@ -33,8 +33,10 @@ TRUSTED = [
     "(integer horizons and integer cutoffs only): those branches are pruned by the translator",
 ]
 MODELLED = [
-    "_check_values / ForecastingHorizon.__init__ (input-kind dispatch, pandas coercion, duplicate "
-    "check, sorting, flag type check): hand model `fh_init`, tied by correspondence only",
+    "the constructor's pandas layer: which Python values count as int / list-or-array / integer "
+    "index (as_int, as_seq, as_index), element coercion by pd.Index(data, dtype=int64), nunique, "
+    "sort_values: hand-modelled and tied by correspondence only (the dispatch order, duplicate "
+    "check, sort call and flag check around them are regenerated from _check_values / __init__)",
     "functools.lru_cache on to_relative / to_absolute: not modelled (pure functions in the model); "
     "staleness is probed by asking a second cutoff and the first one again",
     "Period / Datetime horizons and cutoffs: outside the property's quantifier, no theorem, no cases",
@@ -506,7 +508,7 @@ def _expected(case):
                     return ("reject", "fractional")
                 steps.append(int(q))
             elif t in ("nan", "inf", "-inf"):
-                return ("reject", "fractional")
+                return ("reject", "non-finite")
             elif t == "s":
                 return ("reject", "numeric-string" if case.get("why") == "numeric-string"
                         else "unsupported-type")
